@@ -48,6 +48,7 @@ var errBoom = errors.New("boom: disk on fire")
 var fixedTime = time.Date(2024, 2, 29, 23, 59, 58, 123456789, time.UTC)
 
 type world struct {
+	storm  bool // all derivations are WithGroup(ga|gb) from the root
 	viol   []kit.Violation
 	cfg    map[string]any
 	hist   []string
@@ -419,6 +420,9 @@ func (w *world) main() {
 	w.kind = ch("cfg.handler", 3)
 	w.level = []slog.Level{logger.LevelDebug, logger.LevelInfo, logger.LevelWarn, logger.LevelError, logger.LevelFatal}[ch("cfg.threshold", 5)]
 	w.color = ch("cfg.color", 2) == 1
+	if w.storm = ch("cfg.groupstorm", 6) == 5; w.storm {
+		simrt.Probe("group_storm")
+	}
 	w.source = ch("cfg.source", 2) == 1
 	clients := 1 + ch("cfg.clients", 4)
 	pre := ch("cfg.prederived", 5)
@@ -558,7 +562,15 @@ func (w *world) derive(by string) {
 	ch := simrt.Choose
 	parent := w.pickNode("derive.parent")
 	var s step
-	if k := ch("derive.kind", 8); k == 7 {
+	if w.storm {
+		// group storm: every client derives WithGroup from the SAME parent with
+		// one of two names, again and again (whatever a logger remembers about
+		// its latest derivations is hit from several tasks at once)
+		w.mu.Lock()
+		parent = w.nodes[0]
+		w.mu.Unlock()
+		s.group = []string{"ga", "gb"}[ch("storm.name", 2)]
+	} else if k := ch("derive.kind", 8); k == 7 {
 		// With() without arguments and WithGroup("") hand back the logger
 		// itself: the chain does not change
 		simrt.Probe("empty_derivation")
